@@ -639,7 +639,10 @@ class ValuedRooms(Combinator[Tuple[RoomsType, List[T]]]):
         d = data[idx]
         if not isinstance(d, tuple) or len(d) != 2:
             return None
-        rooms, values = list(map(list, zip(*sorted(zip(*d)))))
+        # same order as the decoder: rooms by their smallest cell (row-major), cells row-major
+        pairs = sorted(((sorted(room), value) for room, value in zip(*d)), key=lambda rv: rv[0][:1])
+        rooms = [room for room, _ in pairs]
+        values = [value for _, value in pairs]
 
         combinator = Tupl(self._room_combinator, Seq(self._value_combinator, len(rooms)))
         res = combinator.serialize(env, [([rooms], [values])], 0)
